@@ -170,6 +170,11 @@ func (w *World) Violate(prop, class, format string, a ...interface{}) {
 		f = report.Finding{Property: "C16", Class: "lease-guarantee/" + prop + "/" + class, Detail: f.Detail}
 		prop = "C16"
 	}
+	if w.O.Prop == "C19" && prop == "C01" {
+		// C19: a configuration accepted at start-up (or being set up) must not take the server down
+		f = report.Finding{Property: "C19", Class: "crash/" + class, Detail: "configuration: " + w.describeChains() + "\n" + f.Detail}
+		prop = "C19"
+	}
 	if w.O.Prop == "C16" && (prop == "C11" || prop == "C12") {
 		// C16: replies keep matching their request while receive buffers are recycled between datagrams
 		f = report.Finding{Property: "C16", Class: "reply-attribution/" + prop + "/" + class, Detail: f.Detail}
@@ -745,7 +750,7 @@ var probeNames = []string{simrt.PLockContended: "sched.lock_contended", simrt.PC
 func (w *World) afterRun(rr simrt.RunResult) {
 	for _, v := range w.Sim.Verdicts {
 		w.Violate(v.Property, v.Class, "%s", v.Detail)
-		if v.Property != w.O.Prop && w.Discard == "" {
+		if v.Property != w.O.Prop && w.Discard == "" && !(w.O.Prop == "C19" && v.Property == "C01") {
 			// a crash or hang met while checking another property: this run cannot speak about it
 			w.Discard = v.Property + "/" + v.Class
 		}
@@ -758,6 +763,17 @@ func (w *World) afterRun(rr simrt.RunResult) {
 		}
 		w.Violate("C01", "wedge", "server tasks are blocked forever on a lock with nothing left to run:%s", sb.String())
 	}
+}
+
+func (w *World) describeChains() string {
+	var sb strings.Builder
+	for _, p := range w.Chain4 {
+		sb.WriteString(" v4[" + p.String() + "]")
+	}
+	for _, p := range w.Chain6 {
+		sb.WriteString(" v6[" + p.String() + "]")
+	}
+	return sb.String()
 }
 
 func (w *World) describe() string {
